@@ -176,7 +176,8 @@ func c01Split(c *core.Ctx, lines []string) (ids []int, contents []string) {
 	}
 	for i := 0; i < nl; i++ {
 		ids = append(ids, pool[perm[i]])
-		contents = append(contents, util.Lines(parts[i]))
+		// Line endings are part of the configuration space too.
+		contents = append(contents, util.LinesEOL(parts[i], []string{"\n", "\n", "\r\n"}[c.Rng.Intn(3)]))
 	}
 
 	return ids, contents
